@@ -248,37 +248,27 @@ Proof.
   unfold shown_path, kname. rewrite Ep, (esc_nl_head c pr Hp). destruct (m_deleted m); discriminate.
 Qed.
 
-(* decoding of the path column, for every answer of the probe but "permission denied" *)
+(* decoding of the path column, for every answer of the probe *)
 Lemma clean_path_row ex m c pr : m_path m = c :: pr -> path_head_ok m = true ->
-  probe_answers ex m = true -> clean_path ex (shown_path m) = Val (row_path ex m).
+  clean_path ex (shown_path m) = Val (row_path ex m).
 Proof.
-  intros Ep Hp Ha. pose proof (shown_nonnil m c pr Ep Hp) as Hne.
-  unfold probe_answers, row_path, marked in *. rewrite Ep in *.
+  intros Ep Hp. pose proof (shown_nonnil m c pr Ep Hp) as Hne.
+  unfold row_path, marked in *. rewrite Ep in *.
   unfold clean_path. destruct (shown_path m) as [|c0 r0] eqn:Es; [congruence|]. rewrite <- Es in *.
   destruct (suffixb deleted_sfx (shown_path m)); cbn [negb orb andb] in *; [|reflexivity].
-  destruct (ex (shown_path m)); cbn [is_denied is_exists negb] in *; try reflexivity. discriminate Ha.
+  destruct (ex (shown_path m)); reflexivity.
 Qed.
 
-Lemma clean_path_denied ex m c pr : m_path m = c :: pr -> path_head_ok m = true ->
-  probe_answers ex m = false -> clean_path ex (shown_path m) = Exc AccessDenied.
-Proof.
-  intros Ep Hp Ha. pose proof (shown_nonnil m c pr Ep Hp) as Hne.
-  unfold probe_answers, marked in *. rewrite Ep in *.
-  unfold clean_path. destruct (shown_path m) as [|c0 r0] eqn:Es; [congruence|]. rewrite <- Es in *.
-  destruct (suffixb deleted_sfx (shown_path m)); cbn [negb orb] in Ha; [|discriminate Ha].
-  destruct (ex (shown_path m)); cbn [is_denied negb] in Ha; try discriminate Ha. reflexivity.
-Qed.
-
-Lemma mk_row_hdr ex m d : wf_kernel0 m = true -> probe_answers ex m = true ->
+Lemma mk_row_hdr ex m d : wf_kernel0 m = true ->
   mk_row ex (hdr_text m) d =
   Val {| w_addr := m_addr m; w_perms := m_perms m; w_path := row_path ex m;
          w_nums := map (fun k => dict_get k d) map_keys |}.
 Proof.
-  intros Hk Ha. unfold mk_row. rewrite (hdr_fields m Hk). unfold hdr_tokens.
+  intros Hk. unfold mk_row. rewrite (hdr_fields m Hk). unfold hdr_tokens.
   apply wf_kernel_parts in Hk as (_ & _ & _ & Hp & _).
   destruct (m_path m) as [|c pr] eqn:Ep; cbn [app].
   - unfold row_path. now rewrite Ep.
-  - rewrite (clean_path_row ex m c pr Ep Hp Ha). reflexivity.
+  - rewrite (clean_path_row ex m c pr Ep Hp). reflexivity.
 Qed.
 
 Lemma block_line_hdr ex m cur d rows : wf_kernel0 m = true ->
@@ -454,10 +444,10 @@ Definition finish (ex : bytes -> probe_res) (st : bstate) : outcome (list maprow
 Definition has_figs (m : mapping) (d : dict) : Prop :=
   forall f, In f row_figs -> dict_get (fkey f) d = kb m f * 1024.
 
-Lemma row_of ex m d : wf_kernel0 m = true -> probe_answers ex m = true -> has_figs m d ->
+Lemma row_of ex m d : wf_kernel0 m = true -> has_figs m d ->
   mk_row ex (hdr_text m) d = Val (probed_row ex m).
 Proof.
-  intros Hwf Ha Hd. rewrite mk_row_hdr by assumption. unfold probed_row. f_equal. f_equal.
+  intros Hwf Hd. rewrite mk_row_hdr by assumption. unfold probed_row. f_equal. f_equal.
   rewrite map_keys_eq, map_map. apply map_ext_in. exact Hd.
 Qed.
 
@@ -516,23 +506,20 @@ Proof.
   - specialize (A m (or_introl eq_refl)). lia.
 Qed.
 
-Definition answers (ex : bytes -> probe_res) (ms : list mapping) : bool := forallb (probe_answers ex) ms.
-
-Lemma blocks_run ex rest ys : texts_of rest ys -> forallb wf_kernel0 rest = true -> answers ex rest = true ->
-  forall m dm rows, wf_kernel0 m = true -> probe_answers ex m = true -> has_figs m dm -> unif (m :: rest) ->
+Lemma blocks_run ex rest ys : texts_of rest ys -> forallb wf_kernel0 rest = true ->
+  forall m dm rows, wf_kernel0 m = true -> has_figs m dm -> unif (m :: rest) ->
   (do st <- block_fold ex (hdr_text m, dm, rows) ys; finish ex st)
   = Val (rev rows ++ probed_row ex m :: map (probed_row ex) rest).
 Proof.
-  induction 1 as [|m' ms xs ys Hx _ IH]; intros Hwf Hans m dm rows Hm Ha Hd Hu.
-  - cbn [block_fold obind finish]. rewrite (row_of ex m dm Hm Ha Hd). reflexivity.
+  induction 1 as [|m' ms xs ys Hx _ IH]; intros Hwf m dm rows Hm Hd Hu.
+  - cbn [block_fold obind finish]. rewrite (row_of ex m dm Hm Hd). reflexivity.
   - cbn [forallb] in Hwf. apply andb_true_iff in Hwf as [Hm' Hms].
-    unfold answers in Hans. cbn [forallb] in Hans. apply andb_true_iff in Hans as [Ha' Hans].
     pose proof Hm' as Hk'.
-    cbn [block_fold]. rewrite (block_line_hdr ex m' _ dm rows Hk'), (row_of ex m dm Hm Ha Hd). cbn [obind].
+    cbn [block_fold]. rewrite (block_line_hdr ex m' _ dm rows Hk'), (row_of ex m dm Hm Hd). cbn [obind].
     rewrite block_fold_app.
     rewrite (block_fold_lines ex (m_lines m') xs); [|now apply wf_kernel_parts in Hk' as (_ & _ & _ & _ & Hl & _)|exact Hx].
     cbn [obind].
-    rewrite (IH Hms Hans m' _ (probed_row ex m :: rows) Hm' Ha' (has_figs_step m m' dm Hk' Hd (unif_step m m' ms Hu Hm)) (unif_tail m _ Hu)).
+    rewrite (IH Hms m' _ (probed_row ex m :: rows) Hm' (has_figs_step m m' dm Hk' Hd (unif_step m m' ms Hu Hm)) (unif_tail m _ Hu)).
     cbn [rev map]. now rewrite <- app_assoc.
 Qed.
 
@@ -601,11 +588,11 @@ Proof.
 Qed.
 
 (* the rows for every listing and every answer of the probe (there / not there for whatever
-   errno): one row per record, in order *)
-Theorem maps_rows ex ms : forallb wf_kernel0 ms = true -> uniform_figs ms = true -> answers ex ms = true ->
+   errno / permission denied): one row per record, in order *)
+Theorem maps_rows ex ms : forallb wf_kernel0 ms = true -> uniform_figs ms = true ->
   memory_maps Alive ex (FContent (k_smaps ms)) = Val (map (probed_row ex) ms).
 Proof.
-  intros Hwf Hunif Hans. apply uniform_figs_unif in Hunif. destruct ms as [|m0 ms]; [reflexivity|].
+  intros Hwf Hunif. apply uniform_figs_unif in Hunif. destruct ms as [|m0 ms]; [reflexivity|].
   pose proof Hwf as Hk.
   pose proof (texts_of_plines (m0 :: ms) (wf_has_lines _ Hk)) as Ht.
   pose proof (texts_no_nl _ _ Ht Hk) as Hn.
@@ -616,21 +603,20 @@ Proof.
   inversion Ht as [|? ? xs ys Hx Hy E1 E2]; subst.
   cbn [forallb] in Hwf. apply andb_true_iff in Hwf as [Hm0 Hms].
   cbn [forallb] in Hk. apply andb_true_iff in Hk as [Hk0 _].
-  unfold answers in Hans. cbn [forallb] in Hans. apply andb_true_iff in Hans as [Ha0 Hans].
   rewrite block_fold_app.
   rewrite (block_fold_lines ex (m_lines m0) xs); [|now apply wf_kernel_parts in Hk0 as (_ & _ & _ & _ & Hl & _)|exact Hx].
   cbn [obind].
-  pose proof (blocks_run ex ms ys Hy Hms Hans m0 _ [] Hm0 Ha0 (has_figs_init m0 Hk0) Hunif) as R.
+  pose proof (blocks_run ex ms ys Hy Hms m0 _ [] Hm0 (has_figs_init m0 Hk0) Hunif) as R.
   unfold finish in R. cbn [rev app map] in R |- *.
   destruct (block_fold ex (hdr_text m0, fold_left upd (m_lines m0) [], []) ys) as [[[cur d] rows]| |];
     cbn [obind] in R |- *; try discriminate R. exact R.
 Qed.
 
 (* with a readable marker the decoded path is the mapping's own name *)
-Lemma row_path_own ex m : path_head_ok m = true -> marker_ok ex m = true -> probe_answers ex m = true ->
+Lemma row_path_own ex m : path_head_ok m = true -> marker_ok ex m = true ->
   row_path ex m = match m_path m with [] => anon_path | _ => kname m end.
 Proof.
-  intros Hp Hm Ha. unfold row_path, marker_ok, probe_answers, marked, path_head_ok in *.
+  intros Hp Hm. unfold row_path, marker_ok, marked, path_head_ok in *.
   destruct (m_path m) as [|c pr] eqn:Ep; [reflexivity|].
   unfold shown_path in *. destruct (m_deleted m).
   - rewrite suffixb_app in *. cbn [negb orb andb] in *. rewrite Hm.
@@ -638,25 +624,21 @@ Proof.
   - destruct (suffixb deleted_sfx (kname m)); cbn [negb orb andb] in *; [|reflexivity]. now rewrite Hm.
 Qed.
 
-Lemma wf_kernel_split ex m : wf_kernel ex m = true ->
-  wf_kernel0 m = true /\ marker_ok ex m = true /\ probe_answers ex m = true.
-Proof.
-  unfold wf_kernel. intros H. apply andb_true_iff in H as [H H3]. apply andb_true_iff in H as [H1 H2]. auto.
-Qed.
+Lemma wf_kernel_split ex m : wf_kernel ex m = true -> wf_kernel0 m = true /\ marker_ok ex m = true.
+Proof. unfold wf_kernel. intros H. now apply andb_true_iff in H. Qed.
 
-Lemma forallb_kernel0 ex ms : forallb (wf_kernel ex) ms = true -> forallb wf_kernel0 ms = true /\ answers ex ms = true.
+Lemma forallb_kernel0 ex ms : forallb (wf_kernel ex) ms = true -> forallb wf_kernel0 ms = true.
 Proof.
-  induction ms as [|m ms IH]; [split; reflexivity|]. cbn [forallb]. intros H. apply andb_true_iff in H as [Hm Hms].
-  destruct (wf_kernel_split ex m Hm) as (H0 & _ & Ha). destruct (IH Hms) as [I1 I2].
-  unfold answers in *. cbn [forallb]. now rewrite H0, Ha, I1, I2.
+  induction ms as [|m ms IH]; [reflexivity|]. cbn [forallb]. intros H. apply andb_true_iff in H as [Hm Hms].
+  destruct (wf_kernel_split ex m Hm) as (H0 & _). now rewrite H0, IH.
 Qed.
 
 Theorem maps_ungrouped ex ms : forallb (wf_kernel ex) ms = true -> uniform_figs ms = true ->
   memory_maps Alive ex (FContent (k_smaps ms)) = Val (map spec_row ms).
 Proof.
-  intros Hwf Hunif. destruct (forallb_kernel0 ex ms Hwf) as [H0 Ha].
-  rewrite (maps_rows ex ms H0 Hunif Ha). f_equal. apply map_ext_in. intros m Hm.
-  rewrite forallb_forall in Hwf. destruct (wf_kernel_split ex m (Hwf m Hm)) as (Hk & Hmk & Hpa).
+  intros Hwf Hunif. pose proof (forallb_kernel0 ex ms Hwf) as H0.
+  rewrite (maps_rows ex ms H0 Hunif). f_equal. apply map_ext_in. intros m Hm.
+  rewrite forallb_forall in Hwf. destruct (wf_kernel_split ex m (Hwf m Hm)) as (Hk & Hmk).
   unfold probed_row, spec_row. f_equal. apply row_path_own; auto.
   now apply wf_kernel_parts in Hk as (_ & _ & _ & Hp & _).
 Qed.
